@@ -13,3 +13,6 @@ import WmModel.Props.C07
 #print axioms Wm.GcReg.writer_unique
 #print axioms Wm.GcSub.internal_steps_bounded
 #print axioms Wm.GcSub.cur_unsettled_at_sendSel
+#print axioms Wm.GcReg.after_close_errors
+#print axioms Wm.GcReg.close_returned_means_closed
+#print axioms Wm.GcReg.closed_lock_owner
